@@ -86,6 +86,12 @@ BUILTINS = {
     "AttributeError", "Exception", "ImportError", "delattr", "vars", "filter", "slice",
 }
 MAX_INLINE_STMTS = 60
+# dtype / device plumbing: irrelevant to values, never inlined
+NEVER_INLINE = {
+    "aspire.utils:resolve_dtype", "aspire.utils:convert_dtype", "aspire.utils:_dtype_to_name",
+    "aspire.utils:infer_device", "aspire.utils:decode_dtype", "aspire.utils:encode_dtype",
+    "aspire.utils:determine_backend_name", "aspire.utils:configure_logger",
+}
 
 
 @dataclass
@@ -174,7 +180,7 @@ class Evaluator:
         if ret is None:
             ret = T.NONE
         else:
-            ret = T.substitute(ret, {T.CONT: T.NONE})
+            ret = subst_cont(ret, T.NONE)
         return ret
 
     def new_obj(self, clsname: str) -> tuple:
@@ -226,7 +232,7 @@ class Frame:
         if st.ret is None:
             st.ret = value
         else:
-            st.ret = T.substitute(st.ret, {T.CONT: value})
+            st.ret = subst_cont(st.ret, value)
         st.live = False
 
     def exec_stmt(self, s, st: State):
@@ -876,7 +882,7 @@ class Frame:
         ev = self.ev
         if self.depth >= ev.max_depth:
             return False
-        if f.ident in ev.no_inline:
+        if f.ident in ev.no_inline or f.ident in NEVER_INLINE:
             return False
         if ev.inline_pred is not None:
             r = ev.inline_pred(f)
@@ -964,7 +970,7 @@ class Frame:
         ret = st.ret
         if ret is None:
             return T.NONE
-        return T.substitute(ret, {T.CONT: T.NONE})
+        return subst_cont(ret, T.NONE)
 
     # ------------------------------------------------------------- events
     def _record(self, callee, args, kwargs, e, result, recv):
@@ -979,6 +985,15 @@ class Frame:
 
 
 # --------------------------------------------------------------------- helpers
+def subst_cont(t, v):
+    """Replace the CONT leaves of a return tree (CONT only occurs as a phi leaf)."""
+    if t == T.CONT:
+        return v
+    if isinstance(t, tuple) and t and t[0] == "phi":
+        return T.phi(t[1], subst_cont(t[2], v), subst_cont(t[3], v))
+    return t
+
+
 def lse(x, axis=None):
     """Canonical expansion of a max-shifted logsumexp."""
     kw = {} if axis in (None, T.NONE) else {"axis": axis}
